@@ -108,7 +108,7 @@ class Gen:
                 return b.add(ty='call', f=f, args=[self.expr(sc,d-1) for _ in params])
             return f
     def funcbody(self, sc, params, d):
-        inner=dict(names=sc['names']+[(p,'let') for p in params], funcs=list(sc['funcs']), inloop=False, labels=[], infunc=True, ingen=getattr(self,'_next_is_gen',False), gvars=list(sc.get('gvars',[])), gfuncs=list(sc.get('gfuncs',[])))
+        inner=dict(names=[(n,k) for n,k in sc['names'] if n not in params]+[(p,'let') for p in params], own=list(params), nested=True, funcs=list(sc['funcs']), inloop=False, labels=[], infunc=True, ingen=getattr(self,'_next_is_gen',False), gvars=list(sc.get('gvars',[])), gfuncs=list(sc.get('gfuncs',[])))
         self._next_is_gen=False
         xs=self.stmts(inner, d, self.r.randint(1,3))
         if self.r.random()<0.7: xs.append(self.b.add(ty='return', a=self.expr(inner,1)))
@@ -121,8 +121,18 @@ class Gen:
             if isinstance(s,list): out+=s
             else: out.append(s)
         return out
+    def shadow(self, sc, p=0.15):
+        """an outer name to re-declare in the current scope (shadowing), or None.  Loop counters, generator objects and names
+        already declared in this scope are left alone (a duplicate lexical declaration is an early error)."""
+        if not getattr(self,'shadowing',True) or self.r.random()>=p: return None
+        c=[n for n,k in sc['names'] if n not in sc.get('own',[]) and not n.startswith(('i','g'))]
+        return self.r.choice(c) if c else None
+    def bind(self, sc, name, kind):
+        sc['names']=[(n,k) for n,k in sc['names'] if n!=name]+[(name,kind)]
+        sc.setdefault('own',[]).append(name)
     def child(self, sc, **kw):
         c=dict(names=list(sc['names']), funcs=list(sc['funcs']), inloop=sc['inloop'], labels=list(sc['labels']), infunc=sc['infunc'], ingen=sc.get('ingen',False), gvars=list(sc.get('gvars',[])), gfuncs=list(sc.get('gfuncs',[])))
+        c['own']=[]; c['nested']=True
         c.update(kw); return c
     def stmt(self, sc, d):
         r=self.r; b=self.b
@@ -141,10 +151,13 @@ class Gen:
         if c=='expr': return b.add(ty='exprstmt', a=self.expr(sc,2))
         if c=='decl':
             kind=r.choice(['let','let','const','var'])
-            name=self.fresh()
+            sh=self.shadow(sc) if kind!='var' and sc.get('nested') else None
+            name=sh or self.fresh()
+            # the initialiser is generated BEFORE the name is bound: a reference to the shadowed outer name inside it
+            # is a use of the new binding in its temporal dead zone, which is exactly what the specification says
             init=self.expr(sc,2) if (kind=='const' or r.random()<0.85) else 0
             n=b.add(ty='decl', kind=kind, name=name, a=init)
-            sc['names'].append((name,kind))
+            self.bind(sc, name, kind)
             return n
         if c=='if':
             t=b.add(ty='block', xs=self.stmts(self.child(sc), d-1, r.randint(1,2)))
@@ -176,22 +189,25 @@ class Gen:
         if c=='forof':
             name=self.fresh('x'); kind=r.choice(['let','const'])
             it=b.add(ty='arrlit', xs=[self.expr(sc,1) for _ in range(r.choice([0,1,2,3]))]) if r.random()<0.7 else self.expr(sc,2)
-            inner=self.child(sc, inloop=True); inner['names'].append((name,kind))
+            name=self.shadow(sc) or name
+            inner=self.child(sc, inloop=True); self.bind(inner, name, kind)
             body=b.add(ty='block', xs=self.stmts(inner, d-1, r.randint(1,3)))
             return b.add(ty='forof', kind=kind, name=name, a=it, body=body)
         if c=='try':
             t=b.add(ty='block', xs=self.stmts(self.child(sc), d-1, r.randint(1,3)))
             hasc=r.random()<0.7; hasf=(not hasc) or r.random()<0.6
-            cname=self.fresh('e') if hasc and r.random()<0.85 else ''
+            cname=(self.shadow(sc, 0.2) or self.fresh('e')) if hasc and r.random()<0.85 else ''
             cb=0
             if hasc:
                 csc=self.child(sc)
-                if cname: csc['names'].append((cname,'let'))
+                if cname: self.bind(csc, cname, 'let')      # re-declaring the catch parameter in its block is an early error: it stays in 'own'
                 cb=b.add(ty='block', xs=self.stmts(csc, d-1, r.randint(1,2)))
             fb=b.add(ty='block', xs=self.stmts(self.child(sc), d-1, r.randint(1,2))) if hasf else 0
             return b.add(ty='try', a=t, b=cb, cname=cname, c=fb)
         if c=='funcdecl':
             name=self.fresh('f'); params=[self.fresh('p') for _ in range(r.choice([0,1,2]))]
+            sh=self.shadow(sc)
+            if sh and params: params[0]=sh
             body=self.funcbody(sc, params, d-1)
             sc['funcs'].append((name,len(params)))
             return b.add(ty='funcdecl', name=name, params=params, body=body)
